@@ -269,7 +269,7 @@ fn grammar_sub(tier: Tier, depth: usize) -> Sub {
         }
       }
       Err(msg) => {
-        let loc = mc_core::take_panic_location().map(|l| mc_core::short_loc(&l)).unwrap_or_default();
+        let loc = mc_core::loc_of(&msg);
         c.violations.push(("panic".into(), loc, msg, wit()));
       }
     }
